@@ -71,6 +71,52 @@ class SimTime(types.ModuleType):
 SIM_TIME = SimTime()
 
 
+class SimSignal(types.ModuleType):
+    """`signal` facade: handlers are registered per simulated process (and inherited through fork)."""
+
+    def __init__(self):
+        super().__init__("signal")
+        import signal as _real
+
+        self._real = _real
+
+    def signal(self, signalnum, handler):
+        w = simmp.WORLD
+        if w is None:
+            return self._real.SIG_DFL
+        proc = w.current_proc()
+        sig = int(signalnum)
+        old = proc.sig_handlers.get(sig)
+        if handler == self._real.SIG_DFL:
+            proc.sig_handlers[sig] = "default"
+        elif handler == self._real.SIG_IGN:
+            proc.sig_handlers[sig] = "ignore"
+        else:
+            proc.sig_handlers[sig] = handler
+        if old is None or old == "default":
+            return self._real.SIG_DFL
+        if old == "ignore":
+            return self._real.SIG_IGN
+        return old
+
+    def getsignal(self, signalnum):
+        w = simmp.WORLD
+        old = w.current_proc().sig_handlers.get(int(signalnum)) if w is not None else None
+        if old is None or old == "default":
+            return self._real.SIG_DFL
+        if old == "ignore":
+            return self._real.SIG_IGN
+        return old
+
+    def __getattr__(self, name):
+        if name in ("alarm", "setitimer", "pthread_kill", "pthread_sigmask", "raise_signal", "sigwait", "pause", "set_wakeup_fd"):
+            raise SimUnsupported("signal.%s" % name)
+        return getattr(self._real, name)
+
+
+SIM_SIGNAL = SimSignal()
+
+
 def scan_imports(path):
     """Names of foreign concurrency modules imported anywhere in the file (module or function level)."""
     try:
@@ -92,7 +138,7 @@ def scan_imports(path):
                 pass
     # direct process control through os
     src = open(path).read()
-    for needle in ("os.fork", "os.kill", "os._exit", "os.waitpid", "os.pipe", "os.abort", "signal.signal", "signal.alarm", "signal.setitimer",
+    for needle in ("os.fork", "os.kill", "os._exit", "os.waitpid", "os.pipe", "os.abort", "signal.alarm", "signal.setitimer",
                    "signal.pthread_", "signal.raise_signal", "signal.sigwait", "signal.pause"):
         if needle in src:
             bad.append(needle)
@@ -138,7 +184,7 @@ def load_realign(repo):
     _MOD_INFO["sha"] = h.hexdigest()[:16]
     fake, subs = simmp.make_module()
     _MOD_INFO["fake_mp"] = fake
-    saved = {k: v for k, v in sys.modules.items() if k == "multiprocessing" or k.startswith("multiprocessing.") or k == "time"}
+    saved = {k: v for k, v in sys.modules.items() if k == "multiprocessing" or k.startswith("multiprocessing.") or k in ("time", "signal")}
     for k in saved:
         del sys.modules[k]
     for k in [k for k in sys.modules if k == "gaftools" or k.startswith("gaftools.")]:
@@ -146,6 +192,7 @@ def load_realign(repo):
     sys.modules["multiprocessing"] = fake
     sys.modules.update(subs)
     sys.modules["time"] = SIM_TIME
+    sys.modules["signal"] = SIM_SIGNAL
     try:
         import gaftools  # noqa: F811
         import gaftools.cli  # noqa: F811
@@ -157,7 +204,7 @@ def load_realign(repo):
         mod = importlib.import_module("gaftools.cli.realign")
     finally:
         for k in list(sys.modules):
-            if k == "multiprocessing" or k.startswith("multiprocessing.") or k == "time":
+            if k == "multiprocessing" or k.startswith("multiprocessing.") or k in ("time", "signal"):
                 del sys.modules[k]
         sys.modules.update(saved)
     gaftools.timer.time = SIM_TIME
@@ -392,8 +439,14 @@ def run_sim(repo, paths, cfg, decisions=None, keep_trace=True):
     else:
         os.environ["GAFTOOLS_VERIF_BATCH_SIZE"] = str(b)
     out = paths["out"]
-    if os.path.exists(out):
-        os.unlink(out)
+    odir = os.path.dirname(out)
+    for fn in os.listdir(odir):
+        if fn.startswith(os.path.basename(out)):
+            os.unlink(os.path.join(odir, fn))
+    if cfg.get("existing_output"):
+        # -o names a file that already exists (it is truncated when run_realign opens it)
+        with open(out, "w") as f:
+            f.write("stale\tcontent\tof\tan\tearlier\trun\n" * 3)
 
     to_stdout = bool(cfg.get("stdout"))
     stdout_buf = io.StringIO()
